@@ -182,6 +182,28 @@ def task_params(p, tier, seed):
 # ------------------------------------------------------------------------------------------- (b) fit
 
 
+def task_params_concrete(p, tier, seed):
+    """Concrete companion of task_params: configuration fields whose previous value has another Python type."""
+    import formak.python as _fp
+
+    part = Part()
+    part.program(p.id)
+    part.fn("python.SklearnEKFAdapter.set_params", "python.SklearnEKFAdapter.get_params")
+    key_base = f"{p.id}/params"
+    with quiet():
+        for cur, fld, val in ((4, "innovation_filtering", 2.5), (1, "max_dt_sec", 0.05), (0.5, "max_dt_sec", 3), (2.0, "innovation_filtering", 7), (None, "innovation_filtering", 0.75), (3, "innovation_filtering", None)):
+            ad7 = float_adapter(p, {})
+            ad7.set_params(config=_fp.Config(**{fld: cur}))
+            ad7.set_params(**{fld: val})
+            got = getattr(ad7.get_params()["config"], fld)
+            ok = (got is None) == (val is None) and (val is None or float(got) == float(val))
+            part.record(Q("unsat" if ok else "sat", None, 0.0, ""), f"{key_base}: set_params({fld}={val!r}) on a configuration holding {fld}={cur!r} stores exactly that value (concrete)")
+            if not ok:
+                path = write_replay(PID, {"key": f"{key_base}/set-{fld}-over-{type(cur).__name__}", "info": {"program": p.id, "kind": "params-concrete"}, "inputs": {}, "case": [repr(cur), fld, repr(val), repr(got)]})
+                part.violation(f"{key_base}/set-{fld}-over-{type(cur).__name__}", f"set_params({fld}={val!r}) on a configuration holding {fld}={cur!r} stored {got!r}", path)
+    return part.d
+
+
 def flat_positions(p):
     """Positions the documented flattening assigns: controls in sorted order, then sensors in key order, readings sorted."""
     pos = [("process", c) for c in p.s_control()]
@@ -602,7 +624,7 @@ def _dispatch(fn, args):
 
 def run(tier, seed):
     rep = Report(PID, tier, seed, "translation_validation")
-    tasks = [(task_params, (CP.P3(), tier, seed)), (task_flatten_roundtrip, (CP.P3(), tier, seed))]
+    tasks = [(task_params_concrete, (CP.P3(), tier, seed)), (task_params, (CP.P3(), tier, seed)), (task_flatten_roundtrip, (CP.P3(), tier, seed))]
     if tier != "quick":
         tasks.append((task_flatten_roundtrip, (CP.P10(), tier, seed)))
     tasks.append((task_fit, (CP.P1(), tier, seed)))
@@ -636,6 +658,11 @@ def replay(path):
         r = json.load(f)
     info = r["info"]
     ps = {p.id: p for p in CP.catalogue()}
+    if info.get("kind") == "params-concrete":
+        d = task_params_concrete(ps[info["program"]], "quick", 0)
+        print([v["what"] for v in d["violations"]])
+        print("REPRODUCED" if d["violations"] else "not reproduced")
+        return 1 if d["violations"] else 0
     if info.get("kind") == "fit-real":
         p1 = CP.P1()
         v = {"P1-xy-noise-1e-10": 1e-10, "P1-xy-noise-1e4": 1e4}.get(info["program"])
